@@ -21,7 +21,7 @@ inductive PathParse where
   | ok (p : Path)
   | error              -- jp.ParseString returns an error
   | unsupported        -- outside the modelled subset
-  deriving Repr, Inhabited
+  deriving Repr, Inhabited, DecidableEq
 
 namespace Path
 
